@@ -1,6 +1,6 @@
 //! C14 — A sips: target is never sent in clear; target and transport selection are sound
 //!
-//! Four sub-checks share one scenario executor and one oracle walk:
+//! Six sub-checks share one scenario executor and one oracle walk:
 //!
 //! * `config` — the finite configuration space, enumerated exhaustively (one request per configuration,
 //!   target URI built through the `SipUri` builder API);
@@ -19,16 +19,43 @@
 //!   does not look at the transport or source a response arrived with, so the ACK for
 //!   the non-2xx final (a request to the same URI, the only request that bypasses `Transports::select`) and
 //!   its copy for a retransmitted final have a "choice"; enumerated over configurations x scripts;
+//! * `route` — header content of the request: a pre-loaded route set of 1..2 Route entries (topmost entry
+//!   sip/sips x loose (`;lr`) / strict x host {an IPv4 proxy, an IPv6 proxy, the Request-URI's host} x
+//!   {no port, :5077}, written `<uri>`, `"Proxy" <uri>;x=1` or with a user part; two entries as two headers or
+//!   one comma separated header) and decoy URIs (an insecure own Contact, a To URI with the other scheme on
+//!   another host), combined with the scheme / family of the Request-URI, 16 endpoint configurations and an
+//!   empty / pinned target info; enumerated.  The Request-URI and the topmost Route entry are two URIs with two
+//!   schemes: `ref_select::readings` lists every reading of "the target" the statement admits (Request-URI as it
+//!   stands = what the pinned tree does; topmost entry as next hop with the sips requirement of either URI
+//!   carried over, RFC 3261 8.1.2) and an observation is accepted when it is clean under any of them.  No
+//!   reading lets a sips Request-URI leave over an insecure transport;
+//! * `pin-history` — ONE target info object is used for 1..4 consecutive requests (the way sip-ua keeps one per
+//!   dialog): the caller pins a transport outside the configuration (datagram-like or reporting
+//!   `reliable()`), a connection it opened itself, or lets ezk fill the empty target info in with a first
+//!   request; then requests whose first `Transport::send` call FAILS (transient io::Error injected through
+//!   `WireLog::fail_calls` for datagram mocks / `PeerConn::write_faults` for connections: nothing reaches the
+//!   wire, the transport stays usable) precede the request under test, which must still go over the pinned
+//!   transport to the pinned destination; enumerated over pin kind x history x configuration x target;
 //! * `sequence` — random sequences of 2..6 requests against ONE endpoint, so that the connections opened by
 //!   earlier requests (held, released, expired) are the pre-existing ones for the later requests; every step
-//!   draws URI form, method and follow-up script as above.
+//!   draws URI form, method and follow-up script as above, plus route set / decoy headers, a send fault for
+//!   the first transmission, and what the caller pins (nothing; the very target info object of an earlier
+//!   held request - used in place, not a copy; an external transport; a connection the caller opened).
 //!
 //! The executor only drives ezk and records what the mocks saw; every transmission is attributed to its
 //! request by Call-ID with the independent wire reader. The verdict is computed afterwards by
 //! `refmodel::ref_select` (decision table written from the statement, no ezk code): `judge` for the first
 //! transmission (selection), `judge_later` for retransmissions and ACKs.
 //!
-//! Not asserted: that retransmissions / the ACK use the transport of the first transmission when nothing was
+//! A request whose first send was made to fail may be reported as failed (liveness and `c14.pin/failed` are
+//! not asserted for it); whatever did leave is judged as usual.  What a kept target info pins is what the
+//! CALLER put there (or what ezk stored for the unpinned request that succeeded); for a pinned request it is
+//! never read back from the object after the call, so a stack that edits the caller's pin is seen by the next
+//! request going elsewhere.
+//!
+//! Not asserted: which of the readings a request with a Route header follows (next hop = Request-URI or
+//! topmost entry); the content of the target info after a call; that a request whose send failed is retried;
+//! that retransmissions / the ACK use the transport of the first transmission when nothing was
 //! pinned by the caller (RFC 3261 17.1.1.3 says so, the C14 statement does not; only never-in-clear,
 //! destination, datagram family and pin reuse are checked per transmission); timing of retransmissions (C05);
 //! content of the ACK (C07); `transport=` / `maddr=` URI parameters (never generated); whether a valid URI
@@ -69,8 +96,20 @@ const DGRAMS: [(&str, bool, &str); 4] = [
     ("DTLS", true, "[fd00::1]:5060"),
 ];
 /// transports that are NOT part of the endpoint, only reachable through a pinned target info
-const EXT: [(&str, bool, &str); 2] = [("PINI", false, "10.0.0.9:5070"), ("PINS", true, "10.0.0.9:5071")];
+/// (name, secure, bound); EXT_RELIABLE[i]: the transport reports `reliable() == true` (what a connection reports)
+const EXT: [(&str, bool, &str); 4] = [
+    ("PINI", false, "10.0.0.9:5070"),
+    ("PINS", true, "10.0.0.9:5071"),
+    ("PINRI", false, "10.0.0.9:5072"),
+    ("PINRS", true, "10.0.0.9:5073"),
+];
+const EXT_RELIABLE: [bool; 4] = [false, false, true, true];
+/// the external transports responses can be delivered over (`RespVia::Ext`, `RespVia::Sel`): the unreliable two
+const EXT_RESP: usize = 2;
 const EXT_DEST: &str = "198.51.100.7:7777";
+/// hosts of generated Route entries (different from every target host, so a request that went to the
+/// Route entry instead of the Request-URI is told apart by its destination)
+const ROUTE_HOSTS: [&str; 2] = ["192.0.2.77", "2001:db8::77"];
 const V4_HOSTS: [&str; 2] = ["192.0.2.5", "192.0.2.6"];
 // the second IPv6 host is an IPv4-mapped address: still an IPv6 destination for transport selection
 const V6_HOSTS: [&str; 2] = ["2001:db8::5", "::ffff:192.0.2.6"];
@@ -102,8 +141,12 @@ enum StepPin {
     None,
     /// pin an external transport (index into EXT) and EXT_DEST
     External(usize),
-    /// reuse the target info kept from an earlier request (selector over the slots held at that moment)
+    /// the SAME target info object an earlier request was sent with and the test kept (selector over the
+    /// slots held at that moment), the way a dialog keeps one target info for all its requests
     SlotSel(u16),
+    /// pin a connection the test opened itself (`Op::OpenOut`, selector over those opened so far) and its
+    /// remote address
+    OpConn(u16),
 }
 
 #[derive(Clone, Debug)]
@@ -121,6 +164,72 @@ struct Step {
     invite: bool,
     /// what happens to the transaction after the first transmission; non-empty = the transaction is driven
     follow: Vec<Follow>,
+    /// header content of the request besides the mandatory ones
+    hdrs: Hdrs,
+    /// the `Transport::send` call that carries the first transmission fails with a transient io::Error
+    /// (armed on every datagram mock and every open connection; a connection opened for this very request
+    /// is not affected)
+    fault: bool,
+}
+
+// ------------------------------------------------------------------------------------------
+// header content
+
+/// One entry of a pre-loaded route set
+#[derive(Serialize, Deserialize, Clone, Copy, Debug, Hash, PartialEq, Eq, Default)]
+pub struct RouteEntry {
+    pub sips: bool,
+    /// loose router (`;lr`); without it the entry is a strict router
+    pub lr: bool,
+    /// 0 ROUTE_HOSTS[0] (IPv4), 1 ROUTE_HOSTS[1] (IPv6), 2 the host of the Request-URI
+    pub host: u8,
+    /// explicit port 5077
+    pub port: bool,
+    /// 0 `<uri>`, 1 `"Proxy" <uri>;x=1` (display name + header parameter), 2 uri with a user part
+    pub form: u8,
+}
+
+#[derive(Serialize, Deserialize, Clone, Debug, Hash, PartialEq, Eq, Default)]
+pub struct Hdrs {
+    /// pre-loaded route set (0..=2 entries), topmost first
+    pub routes: Vec<RouteEntry>,
+    /// all entries in one comma separated Route header instead of one header per entry
+    pub one_line: bool,
+    /// headers with URIs that say nothing about the next hop: bit 0 = `Contact: <sip:alice@198.51.100.21:5080>`
+    /// (an insecure own contact), bit 1 = the To URI has the OTHER scheme than the Request-URI and another host
+    pub decoys: u8,
+}
+
+fn route_target(e: &RouteEntry, ruri: &rs::Target) -> rs::Target {
+    rs::Target {
+        sips: e.sips,
+        ip: match e.host % 3 {
+            0 => ROUTE_HOSTS[0].parse().unwrap(),
+            1 => ROUTE_HOSTS[1].parse().unwrap(),
+            _ => ruri.ip,
+        },
+        port: if e.port { Some(5077) } else { None },
+    }
+}
+
+fn route_text(e: &RouteEntry, ruri: &rs::Target) -> String {
+    let t = route_target(e, ruri);
+    let host = match t.ip {
+        IpAddr::V4(a) => a.to_string(),
+        IpAddr::V6(a) => format!("[{a}]"),
+    };
+    let uri = format!(
+        "{}:{}{host}{}{}",
+        if e.sips { "sips" } else { "sip" },
+        if e.form % 3 == 2 { "proxy@" } else { "" },
+        t.port.map(|p| format!(":{p}")).unwrap_or_default(),
+        if e.lr { ";lr" } else { "" },
+    );
+    if e.form % 3 == 1 {
+        format!("\"Proxy\" <{uri}>;x=1")
+    } else {
+        format!("<{uri}>")
+    }
 }
 
 // ------------------------------------------------------------------------------------------
@@ -284,6 +393,12 @@ struct StepObs {
     later: Vec<(String, CId, SocketAddr)>,
     /// index into the wire log where the first-transmission window of this request ended
     window_end: usize,
+    /// a send call of this request was made to fail (the armed fault was consumed)
+    faulted: bool,
+    /// `StepPin::OpConn`: id of the connection the caller pinned
+    pin_conn: Option<u32>,
+    /// number of Route header values the first transmission carried on the wire
+    routes_on_wire: usize,
 }
 
 /// A transaction the test keeps
@@ -405,13 +520,33 @@ fn call_id(n: usize) -> String {
     format!("c14-{n}@example.org")
 }
 
-fn make_request(uri: Box<dyn Uri>, invite: bool, n: usize) -> Request {
+fn make_request(uri: Box<dyn Uri>, invite: bool, n: usize, hdrs: &Hdrs, ruri: &rs::Target) -> Request {
     let method = if invite { Method::INVITE } else { Method::OPTIONS };
     let mut request = Request::new(method, uri);
+    // pre-loaded route set, topmost first (RFC 3261 8.1.1.9 / 12.2.1.1: Route headers precede the rest)
+    let routes: Vec<String> = hdrs.routes.iter().map(|e| route_text(e, ruri)).collect();
+    if hdrs.one_line && !routes.is_empty() {
+        request.headers.insert(Name::ROUTE, routes.join(", "));
+    } else {
+        for r in routes {
+            request.headers.insert(Name::ROUTE, r);
+        }
+    }
     request
         .headers
         .insert(Name::FROM, "\"Alice\" <sip:alice@example.org>;tag=c14");
-    request.headers.insert(Name::TO, "<sip:bob@example.net>");
+    if hdrs.decoys & 2 != 0 {
+        // the logical recipient is named with the other scheme and lives elsewhere
+        request.headers.insert(
+            Name::TO,
+            format!("<{}:bob@198.51.100.20>", if ruri.sips { "sip" } else { "sips" }),
+        );
+    } else {
+        request.headers.insert(Name::TO, "<sip:bob@example.net>");
+    }
+    if hdrs.decoys & 1 != 0 {
+        request.headers.insert(Name::CONTACT, "<sip:alice@198.51.100.21:5080>");
+    }
     request.headers.insert(Name::CALL_ID, call_id(n));
     request
         .headers
@@ -510,7 +645,7 @@ fn execute(sc: &Scenario, rng: u64) -> Result<Vec<StepObs>, String> {
         }
         let mut ext_tp = vec![];
         for (i, (name, secure, bound)) in EXT.iter().enumerate() {
-            let (tp, id) = mock_datagram(&log, name, *secure, false, bound);
+            let (tp, id) = mock_datagram(&log, name, *secure, EXT_RELIABLE[i], bound);
             ids.ext.push((i, id));
             ext_tp.push(tp);
         }
@@ -539,12 +674,12 @@ fn execute(sc: &Scenario, rng: u64) -> Result<Vec<StepObs>, String> {
 
         // everything the test keeps alive
         let mut conns: Vec<ConnRec> = vec![];
-        let mut perm_handles: Vec<TpHandle> = vec![];
+        let mut perm_handles: Vec<(u32, SocketAddr, TpHandle)> = vec![];
         let mut perm_requests: Vec<IncomingRequest> = vec![];
         // peer ends of every connection (opened by an Op or by a registered factory)
         let mut peers: Vec<PeerConn> = vec![];
         let mut first_op_conn: Option<u32> = None;
-        let mut slots: BTreeMap<usize, (HeldTsx, TargetTransportInfo)> = BTreeMap::new();
+        let mut slots: BTreeMap<usize, (Option<HeldTsx>, TargetTransportInfo)> = BTreeMap::new();
         let mut seen_connects: Vec<usize> = vec![0; probes.len()];
         let mut helper_n = 0u32;
         let mut inbound_from: BTreeSet<(bool, SocketAddr)> = BTreeSet::new();
@@ -584,7 +719,7 @@ fn execute(sc: &Scenario, rng: u64) -> Result<Vec<StepObs>, String> {
                         first_op_conn.get_or_insert(rec.id);
                         conns.push(rec.clone());
                         obs.opened.push(rec);
-                        perm_handles.push(tp);
+                        perm_handles.push((peer.id, *remote, tp));
                         peers.push(peer);
                     }
                     Op::OpenIn { secure, remote } => {
@@ -642,6 +777,8 @@ fn execute(sc: &Scenario, rng: u64) -> Result<Vec<StepObs>, String> {
                 .collect();
 
             let mut target = TargetTransportInfo::default();
+            // the slot whose target info object this request is sent with (put back after the call)
+            let mut borrowed: Option<(usize, Option<HeldTsx>)> = None;
             match &step.pin {
                 StepPin::None => {}
                 StepPin::External(i) => {
@@ -651,8 +788,17 @@ fn execute(sc: &Scenario, rng: u64) -> Result<Vec<StepObs>, String> {
                     let keys: Vec<usize> = slots.keys().copied().collect();
                     if !keys.is_empty() {
                         let k = keys[pick_idx(*sel, keys.len())];
-                        target = slots[&k].1.clone();
+                        let (tsx_k, target_k) = slots.remove(&k).unwrap();
+                        target = target_k;
+                        borrowed = Some((k, tsx_k));
                         obs.pin_slot = Some(k);
+                    }
+                }
+                StepPin::OpConn(sel) => {
+                    if !perm_handles.is_empty() {
+                        let (id, remote, tp) = &perm_handles[pick_idx(*sel, perm_handles.len())];
+                        target.transport = Some((tp.clone(), *remote));
+                        obs.pin_conn = Some(*id);
                     }
                 }
             }
@@ -695,6 +841,9 @@ fn execute(sc: &Scenario, rng: u64) -> Result<Vec<StepObs>, String> {
                 }
             };
             let Some(uri) = uri else {
+                if let Some((k, tsx_k)) = borrowed.take() {
+                    slots.insert(k, (tsx_k, target));
+                }
                 obs.uri_rejected = Some(text);
                 obs.window_end = log.len();
                 obs.managed = endpoint.verif_counts().1;
@@ -704,12 +853,31 @@ fn execute(sc: &Scenario, rng: u64) -> Result<Vec<StepObs>, String> {
 
             let wire_before = log.len();
             let written_before: Vec<(u32, usize)> = conns.iter().map(|c| (c.id, c.received.lock().len())).collect();
-            let request = make_request(uri, step.invite, n);
+            let caller_pinned = borrowed.is_none() && target.transport.is_some();
+            let request = make_request(uri, step.invite, n, &step.hdrs, &step.target);
+            // ---- send fault: the next send call on whatever existing transport carries the request fails ----
+            let failed_before = log.failed_sends().len();
+            if step.fault {
+                let next = log.faults.lock().calls;
+                log.fail_calls([next]);
+                for p in peers.iter().filter(|p| !p.is_eof()) {
+                    p.write_faults.store(1, Ordering::SeqCst);
+                }
+            }
             let result = if step.invite {
                 endpoint.send_invite(request, &mut target).await.map(HeldTsx::Inv)
             } else {
                 endpoint.send_request(request, &mut target).await.map(HeldTsx::Plain)
             };
+            if step.fault {
+                obs.faulted = log.failed_sends().len() > failed_before;
+                log.faults.lock().fail_calls.clear();
+                for p in peers.iter() {
+                    if !p.is_eof() && p.write_faults.swap(0, Ordering::SeqCst) == 0 {
+                        obs.faulted = true;
+                    }
+                }
+            }
             settle().await;
 
             for (fi, (_, p)) in probes.iter().enumerate() {
@@ -744,6 +912,7 @@ fn execute(sc: &Scenario, rng: u64) -> Result<Vec<StepObs>, String> {
                     }
                 }
                 if first_request.is_none() {
+                    obs.routes_on_wire = m.as_ref().map(|m| m.list_values("route").len()).unwrap_or(0);
                     first_request = m;
                 }
                 obs.sent.push((cid_of_wire(&ids, s.tp, &conns, &wrote), s.dest));
@@ -795,7 +964,7 @@ fn execute(sc: &Scenario, rng: u64) -> Result<Vec<StepObs>, String> {
                                         RespVia::Sel(sel) => {
                                             let mut all = vec![carrier.clone()];
                                             all.extend(dgram_tp.iter().map(|(i, _)| CId::Dgram(*i)));
-                                            all.extend((0..EXT.len()).map(CId::Ext));
+                                            all.extend((0..EXT_RESP).map(CId::Ext));
                                             all.extend(peers.iter().filter(|p| !p.is_eof()).map(|p| CId::Conn(p.id)));
                                             all[pick_idx(*sel, all.len())].clone()
                                         }
@@ -829,16 +998,35 @@ fn execute(sc: &Scenario, rng: u64) -> Result<Vec<StepObs>, String> {
                             }
                         }
                     }
-                    if step.hold {
-                        slots.insert(n, (tsx, target));
-                    } else {
-                        drop(tsx);
-                        drop(target);
+                    match (borrowed.take(), step.hold) {
+                        (Some((k, tsx_k)), true) => {
+                            slots.insert(n, (Some(tsx), target.clone()));
+                            slots.insert(k, (tsx_k, target));
+                        }
+                        (Some((k, tsx_k)), false) => {
+                            drop(tsx);
+                            slots.insert(k, (tsx_k, target));
+                        }
+                        (None, true) => {
+                            slots.insert(n, (Some(tsx), target));
+                        }
+                        (None, false) => {
+                            drop(tsx);
+                            drop(target);
+                        }
                     }
                 }
                 Err(e) => {
                     obs.err = e.to_string();
-                    drop(target);
+                    if let Some((k, tsx_k)) = borrowed.take() {
+                        // the caller keeps its target info whatever happened to the request
+                        slots.insert(k, (tsx_k, target));
+                    } else if step.hold && caller_pinned {
+                        // a target info the caller pinned itself is kept for later requests although this one failed
+                        slots.insert(n, (None, target));
+                    } else {
+                        drop(target);
+                    }
                 }
             }
             settle().await;
@@ -906,6 +1094,8 @@ fn evaluate(sc: &Scenario, obs: &[StepObs], out: &mut CaseOut) -> Summary {
     let mut notes = vec![];
     // per request: what the caller pinned (for the verdict on later transmissions)
     let mut pins: Vec<Option<rs::Pin>> = vec![];
+    // slots whose target info object has seen a request fail at its first send
+    let mut slot_saw_failed_send: BTreeSet<usize> = BTreeSet::new();
 
     for (n, (step, o)) in sc.steps.iter().zip(obs.iter()).enumerate() {
         out.class(match step.uri.via {
@@ -936,6 +1126,32 @@ fn evaluate(sc: &Scenario, obs: &[StepObs], out: &mut CaseOut) -> Summary {
             }
         }
         out.class(if step.invite { "method:INVITE" } else { "method:OPTIONS" });
+        if let Some(first) = step.hdrs.routes.first() {
+            out.class(if step.hdrs.routes.len() >= 2 { "route:two-entries" } else { "route:one-entry" });
+            out.class(match (first.sips, first.lr) {
+                (false, true) => "route:topmost-sip-loose",
+                (true, true) => "route:topmost-sips-loose",
+                (false, false) => "route:topmost-sip-strict",
+                (true, false) => "route:topmost-sips-strict",
+            });
+            if step.target.sips && !first.sips {
+                out.class("route:sips-request-uri-behind-sip-route-entry");
+            }
+            if !step.target.sips && first.sips {
+                out.class("route:sip-request-uri-behind-sips-route-entry");
+            }
+            if first.host % 3 == 2 {
+                out.class("route:topmost-entry-on-the-request-uri-host");
+            } else if (first.host % 3 == 1) != step.target.ip.is_ipv6() {
+                out.class("route:topmost-entry-in-the-other-address-family");
+            }
+        }
+        if step.hdrs.decoys != 0 {
+            out.class("headers:decoy-uris (Contact / To with other scheme and host)");
+        }
+        if step.fault {
+            out.class(if o.faulted { "fault:first-send-failed" } else { "fault:armed-not-consumed (new connection or no send)" });
+        }
         // ---- state changes before the request ----
         if let Some(k) = o.released {
             slots.remove(&k);
@@ -1006,31 +1222,33 @@ fn evaluate(sc: &Scenario, obs: &[StepObs], out: &mut CaseOut) -> Summary {
                 CId::Unknown => (Carrier::Unknown, false),
             }
         };
-        let pin: Option<rs::Pin> = match &step.pin {
+        // what the caller's target info pins, as the CALLER knows it (never read back from ezk for a pinned step)
+        let pin_cid: Option<(CId, SocketAddr)> = match &step.pin {
             StepPin::None => None,
-            StepPin::External(i) => Some(rs::Pin {
-                carrier: Carrier::External(*i),
-                secure: EXT[*i].1,
-                dest: EXT_DEST.parse().unwrap(),
-            }),
+            StepPin::External(i) => Some((CId::Ext(*i), EXT_DEST.parse().unwrap())),
             StepPin::SlotSel(_) => match o.pin_slot {
                 None => None,
                 Some(k) => match slots.get(&k) {
-                    Some((cid, dest)) => {
-                        let (carrier, secure) = carrier_of(cid);
-                        Some(rs::Pin {
-                            carrier,
-                            secure,
-                            dest: *dest,
-                        })
-                    }
+                    Some(x) => Some(x.clone()),
                     None => {
                         out.fail("c14.harness/slot-bookkeeping", format!("step {n}: slot {k} unknown to the oracle"));
                         None
                     }
                 },
             },
+            StepPin::OpConn(_) => o
+                .pin_conn
+                .and_then(|id| conns.iter().find(|c| c.rec.id == id))
+                .map(|c| (CId::Conn(c.rec.id), c.rec.remote)),
         };
+        let pin: Option<rs::Pin> = pin_cid.as_ref().map(|(cid, dest)| {
+            let (carrier, secure) = carrier_of(cid);
+            rs::Pin {
+                carrier,
+                secure,
+                dest: *dest,
+            }
+        });
         pins.push(pin.clone());
         if let Some(text) = &o.uri_rejected {
             // (C01's subject, but the request could not be issued: say so instead of skipping silently)
@@ -1052,11 +1270,22 @@ fn evaluate(sc: &Scenario, obs: &[StepObs], out: &mut CaseOut) -> Summary {
                 })
                 .collect(),
             connects: o.connects.clone(),
+            send_fault: o.faulted,
         };
+        // every reading of "the target" the statement admits (more than one only with a Route header)
+        let first_route = step.hdrs.routes.first().map(|e| route_target(e, &step.target));
+        let readings = rs::readings(&step.target, first_route.as_ref());
 
         // ---- verdict ----
-        for finding in rs::judge(&cfg, &step.target, pin.as_ref(), &observation) {
+        for finding in rs::judge_any(&cfg, &readings, pin.as_ref(), &observation) {
             out.fail(finding.sig, format!("request {n} ({:?}): {}", step.target, finding.msg));
+        }
+        if step.hdrs.routes.len() != o.routes_on_wire && !o.sent.is_empty() {
+            // generator accounting, not a verdict on ezk's selection: the route set did not reach the wire as built
+            out.fail(
+                "c14.harness/route-set-not-on-wire",
+                format!("request {n}: built with {} Route entries, {} on the wire", step.hdrs.routes.len(), o.routes_on_wire),
+            );
         }
         // the transport the transaction holds must be the one that carried the request ("reports itself secure")
         if let (Some((rep_secure, _)), Some((_, carried_secure, _))) = (o.reported, observation.sent.first()) {
@@ -1074,6 +1303,37 @@ fn evaluate(sc: &Scenario, obs: &[StepObs], out: &mut CaseOut) -> Summary {
         out.class(if step.target.ip.is_ipv6() { "host:ipv6-literal" } else { "host:ipv4-literal" });
         out.class(if step.target.port.is_some() { "port:explicit" } else { "port:default" });
         let mut nt = false;
+        if pin.is_none()
+            && !step.hdrs.routes.is_empty()
+            && readings.iter().any(|r| r.sips)
+            && rs::insecure_candidate_present(&cfg)
+        {
+            out.class("nontrivial:route-set-and-a-sips-uri-with-insecure-candidate-present");
+            nt = true;
+        }
+        if let Some(p) = &pin {
+            out.class(match (&p.carrier, &step.pin) {
+                (_, StepPin::SlotSel(_)) => "pinned:target-info-of-earlier-request",
+                (Carrier::External(i), _) if EXT_RELIABLE[*i] => "pinned:external-reliable",
+                (Carrier::External(_), _) => "pinned:external-datagram",
+                _ => "pinned:connection-opened-by-the-caller",
+            });
+        }
+        if let (Some(p), Some(k)) = (&pin, o.pin_slot) {
+            if slot_saw_failed_send.contains(&k) {
+                let reliable = match &p.carrier {
+                    Carrier::External(i) => EXT_RELIABLE[*i],
+                    Carrier::Conn(_) | Carrier::NewConn { .. } => true,
+                    _ => false,
+                };
+                out.class(if reliable {
+                    "nontrivial:pinned-request-after-a-failed-send-with-the-same-target-info (reliable transport)"
+                } else {
+                    "nontrivial:pinned-request-after-a-failed-send-with-the-same-target-info (datagram transport)"
+                });
+                nt = true;
+            }
+        }
         if pin.is_some() {
             out.class("pinned");
             if step.target.sips && !pin.as_ref().unwrap().secure {
@@ -1158,8 +1418,27 @@ fn evaluate(sc: &Scenario, obs: &[StepObs], out: &mut CaseOut) -> Summary {
                 from_earlier_request: true,
             });
         }
-        if o.ok && step.hold {
-            if let Some((cid, dest)) = &o.target_after {
+        // what the target info kept in slot n pins: the caller's own pin when there was one, else what ezk
+        // stored in it for the request that succeeded
+        let kept: Option<Option<(CId, SocketAddr)>> = if !step.hold {
+            None
+        } else if o.ok {
+            Some(pin_cid.clone().or(o.target_after.clone()))
+        } else if pin_cid.is_some() && o.pin_slot.is_none() {
+            // (a failed request: the caller keeps a target info it pinned itself)
+            Some(pin_cid.clone())
+        } else {
+            None
+        };
+        if o.faulted && !o.ok && pin.is_some() {
+            if let Some(k) = o.pin_slot {
+                slot_saw_failed_send.insert(k);
+            } else if kept.is_some() {
+                slot_saw_failed_send.insert(n);
+            }
+        }
+        if let Some(kept) = kept {
+            if let Some((cid, dest)) = &kept {
                 slots.insert(n, (cid.clone(), *dest));
                 if let CId::Conn(id) = cid {
                     if let Some(c) = conns.iter_mut().find(|c| c.rec.id == *id) {
@@ -1232,7 +1511,9 @@ fn evaluate(sc: &Scenario, obs: &[StepObs], out: &mut CaseOut) -> Summary {
             })
             .collect();
         let pin = pins.get(n).cloned().flatten();
-        for finding in rs::judge_later(&step.target, pin.as_ref(), &later) {
+        let first_route = step.hdrs.routes.first().map(|e| route_target(e, &step.target));
+        let readings = rs::readings(&step.target, first_route.as_ref());
+        for finding in rs::judge_later_any(&readings, pin.as_ref(), &later) {
             out.fail(finding.sig, format!("request {n} ({:?}): {}", step.target, finding.msg));
         }
         let acks = later.iter().filter(|l| l.kind == rs::LaterKind::Ack).count();
@@ -1443,6 +1724,8 @@ fn lower_config(c: &Case) -> Scenario {
             uri: UriForm::default(),
             invite: false,
             follow: vec![],
+            hdrs: Hdrs::default(),
+            fault: false,
         }],
     }
 }
@@ -1507,6 +1790,20 @@ pub struct SeqStep {
     /// follow-up script (empty: the transaction is kept un-polled, as an application that never calls receive())
     #[serde(default)]
     pub follow: Vec<Follow>,
+    /// Route set and decoy headers of the request
+    #[serde(default)]
+    pub hdrs: Hdrs,
+    /// the send call carrying the first transmission fails (transient io error)
+    #[serde(default)]
+    pub fault: bool,
+    /// when `pin` is None: the caller pins something itself - 0..=3 the transport EXT[i] outside the
+    /// configuration (2, 3 report reliable) + a foreign destination, 4 a connection it opened itself
+    /// (`open_out`), if any
+    #[serde(default)]
+    pub own_pin: Option<u8>,
+    /// before the request: the caller opens (and keeps) an outbound connection (secure?) to this request's destination
+    #[serde(default)]
+    pub open_out: Option<bool>,
 }
 
 #[derive(Serialize, Deserialize, Clone, Debug, Hash)]
@@ -1569,6 +1866,32 @@ fn follow_script() -> impl Strategy<Value = Vec<Follow>> {
     ]
 }
 
+fn route_entry() -> impl Strategy<Value = RouteEntry> {
+    (
+        prop_oneof![2 => Just(false), 1 => Just(true)],
+        prop_oneof![3 => Just(true), 1 => Just(false)],
+        prop_oneof![3 => Just(0u8), 1 => Just(1u8), 1 => Just(2u8)],
+        prop_oneof![2 => Just(false), 1 => Just(true)],
+        0u8..3,
+    )
+        .prop_map(|(sips, lr, host, port, form)| RouteEntry {
+            sips,
+            lr,
+            host,
+            port,
+            form,
+        })
+}
+
+fn hdrs_strategy() -> impl Strategy<Value = Hdrs> {
+    prop_oneof![
+        5 => Just(Hdrs::default()),
+        2 => (prop::collection::vec(route_entry(), 1..=2), any::<bool>(), 0u8..4)
+            .prop_map(|(routes, one_line, decoys)| Hdrs { routes, one_line, decoys }),
+        1 => (1u8..4).prop_map(|decoys| Hdrs { routes: vec![], one_line: false, decoys }),
+    ]
+}
+
 fn seq_step() -> impl Strategy<Value = SeqStep> {
     (
         (
@@ -1586,15 +1909,31 @@ fn seq_step() -> impl Strategy<Value = SeqStep> {
             prop_oneof![4 => Just(true), 1 => Just(false)],
             prop_oneof![4 => Just(true), 1 => Just(false)],
         ),
-        prop_oneof![5 => Just(None), 1 => any::<u16>().prop_map(Some)],
+        prop_oneof![4 => Just(None), 1 => any::<u16>().prop_map(Some)],
         prop_oneof![2 => Just(true), 1 => Just(false)],
         prop_oneof![3 => Just(None), 1 => any::<u16>().prop_map(Some)],
         prop_oneof![6 => Just(false), 1 => Just(true)],
         prop_oneof![8 => Just(None), 1 => any::<bool>().prop_map(Some)],
         (uri_form(), prop_oneof![3 => Just(false), 2 => Just(true)], follow_script()),
+        (
+            hdrs_strategy(),
+            prop_oneof![5 => Just(false), 1 => Just(true)],
+            prop_oneof![10 => Just(None), 1 => (0u8..5).prop_map(Some)],
+            prop_oneof![12 => Just(None), 1 => any::<bool>().prop_map(Some)],
+        ),
     )
         .prop_map(
-            |((sips, v6, host, port), (tcp_ok, tls_ok), pin, hold, release, advance, inbound, (uri, invite, follow))| SeqStep {
+            |(
+                (sips, v6, host, port),
+                (tcp_ok, tls_ok),
+                pin,
+                hold,
+                release,
+                advance,
+                inbound,
+                (uri, invite, follow),
+                (hdrs, fault, own_pin, open_out),
+            )| SeqStep {
                 sips,
                 v6,
                 host,
@@ -1609,6 +1948,10 @@ fn seq_step() -> impl Strategy<Value = SeqStep> {
                 uri,
                 invite,
                 follow,
+                hdrs,
+                fault,
+                own_pin,
+                open_out,
             },
         )
 }
@@ -1667,18 +2010,29 @@ fn lower_seq(c: &SeqCase) -> Scenario {
                     remote: rs::destination(&target),
                 });
             }
+            if let Some(secure) = s.open_out {
+                ops.push(Op::OpenOut {
+                    secure,
+                    remote: rs::destination(&target),
+                });
+            }
             Step {
                 ops,
                 fac_ok: [s.tcp_ok, s.tls_ok],
                 target,
-                pin: match s.pin {
-                    Some(sel) => StepPin::SlotSel(sel),
-                    None => StepPin::None,
+                pin: match (s.pin, s.own_pin) {
+                    (Some(sel), _) => StepPin::SlotSel(sel),
+                    (None, Some(i)) if (i as usize) < EXT.len() => StepPin::External(i as usize),
+                    // the connection opened last
+                    (None, Some(_)) => StepPin::OpConn(u16::MAX),
+                    (None, None) => StepPin::None,
                 },
                 hold: s.hold,
                 uri: s.uri,
                 invite: s.invite,
                 follow: s.follow.clone(),
+                hdrs: s.hdrs.clone(),
+                fault: s.fault,
             }
         })
         .collect();
@@ -1799,6 +2153,8 @@ pub fn check_text(case: &TextCase, out: &mut CaseOut) {
             uri: case.uri,
             invite: false,
             follow: vec![],
+            hdrs: Hdrs::default(),
+            fault: false,
         }],
     };
     run_and_judge(&sc, case.rng, case, out);
@@ -1952,6 +2308,8 @@ pub fn check_follow(case: &FollowCase, out: &mut CaseOut) {
             uri: UriForm::default(),
             invite,
             follow,
+            hdrs: Hdrs::default(),
+            fault: false,
         }],
     };
     out.class(match case.script {
@@ -1964,11 +2322,300 @@ pub fn check_follow(case: &FollowCase, out: &mut CaseOut) {
     run_and_judge(&sc, case.rng, case, out);
 }
 
+// ------------------------------------------------------------------------------------------
+// sub-check 5: header content of the request - pre-loaded route sets and decoy URIs (exhaustive)
+
+#[derive(Serialize, Deserialize, Clone, Debug, Hash)]
+pub struct HdrCase {
+    pub dgrams: u8,
+    pub facs: FacOrder,
+    pub sips: bool,
+    pub v6: bool,
+    pub hdrs: Hdrs,
+    pub pin: PinSel,
+    pub invite: bool,
+    pub rng: u8,
+}
+
+/// the header shapes of the `route` sub-check
+fn hdr_shapes() -> Vec<Hdrs> {
+    let mut v = vec![];
+    for decoys in 1u8..4 {
+        v.push(Hdrs {
+            routes: vec![],
+            one_line: false,
+            decoys,
+        });
+    }
+    let mut firsts = vec![];
+    for sips in [false, true] {
+        for lr in [true, false] {
+            for host in 0u8..3 {
+                for port in [false, true] {
+                    firsts.push(RouteEntry {
+                        sips,
+                        lr,
+                        host,
+                        port,
+                        form: (firsts.len() % 3) as u8,
+                    });
+                }
+            }
+        }
+    }
+    for first in &firsts {
+        for decoys in [0u8, 3] {
+            v.push(Hdrs {
+                routes: vec![*first],
+                one_line: false,
+                decoys,
+            });
+        }
+        for second_sips in [false, true] {
+            for one_line in [false, true] {
+                let second = RouteEntry {
+                    sips: second_sips,
+                    lr: true,
+                    host: 0,
+                    port: false,
+                    form: 0,
+                };
+                v.push(Hdrs {
+                    routes: vec![*first, second],
+                    one_line,
+                    decoys: 0,
+                });
+            }
+        }
+    }
+    v
+}
+
+pub fn hdr_cases(tier: Tier) -> Vec<HdrCase> {
+    let configs: Vec<(u8, FacOrder)> = match tier {
+        Tier::Quick => [0b0000u8, 0b0011, 0b1100, 0b1111]
+            .into_iter()
+            .flat_map(|d| {
+                [FacOrder::None, FacOrder::TcpTls, FacOrder::Tcp, FacOrder::Tls]
+                    .into_iter()
+                    .map(move |f| (d, f))
+            })
+            .collect(),
+        Tier::Thorough => [0b0000u8, 0b0011, 0b1100, 0b1111, 0b0001, 0b0100, 0b0110, 0b1001]
+            .into_iter()
+            .flat_map(|d| {
+                [FacOrder::None, FacOrder::TcpTls, FacOrder::TlsTcp, FacOrder::Tcp, FacOrder::Tls]
+                    .into_iter()
+                    .map(move |f| (d, f))
+            })
+            .collect(),
+    };
+    let pins: &[PinSel] = match tier {
+        Tier::Quick => &[PinSel::Empty, PinSel::Secure],
+        Tier::Thorough => &PINS,
+    };
+    let shapes = hdr_shapes();
+    let mut v = vec![];
+    for (dgrams, facs) in configs {
+        for sips in [false, true] {
+            for v6 in [false, true] {
+                for hdrs in &shapes {
+                    for &pin in pins {
+                        let rng = (v.len() % 5) as u8;
+                        let invite = v.len() % 3 == 1;
+                        v.push(HdrCase {
+                            dgrams,
+                            facs,
+                            sips,
+                            v6,
+                            hdrs: hdrs.clone(),
+                            pin,
+                            invite,
+                            rng,
+                        });
+                    }
+                }
+            }
+        }
+    }
+    v
+}
+
+pub fn check_hdr(case: &HdrCase, out: &mut CaseOut) {
+    let sc = Scenario {
+        dgrams: case.dgrams & 0xf,
+        dgrams_rev: false,
+        facs: fac_list(case.facs),
+        steps: vec![Step {
+            ops: vec![],
+            fac_ok: [true, true],
+            target: rs::Target {
+                sips: case.sips,
+                ip: host_ip(case.v6, 0),
+                port: None,
+            },
+            pin: match case.pin {
+                PinSel::Empty => StepPin::None,
+                PinSel::Insecure => StepPin::External(0),
+                PinSel::Secure => StepPin::External(1),
+            },
+            hold: false,
+            uri: UriForm::default(),
+            invite: case.invite,
+            follow: vec![],
+            hdrs: case.hdrs.clone(),
+            fault: false,
+        }],
+    };
+    run_and_judge(&sc, case.rng, case, out);
+}
+
+// ------------------------------------------------------------------------------------------
+// sub-check 6: several requests with ONE target info, some of which fail at their first send (exhaustive)
+
+#[derive(Serialize, Deserialize, Clone, Copy, Debug, Hash, PartialEq, Eq)]
+pub enum PinKind {
+    /// the caller pins EXT[i] (0, 1 datagram-like; 2, 3 report reliable) and a foreign destination
+    Ext(u8),
+    /// the caller opens a connection (secure?) to the destination and pins it
+    OwnConn(bool),
+    /// the target info starts empty; ezk fills it in for a first request that succeeds
+    Populated,
+}
+
+#[derive(Serialize, Deserialize, Clone, Debug, Hash)]
+pub struct HistCase {
+    pub dgrams: u8,
+    pub facs: FacOrder,
+    pub kind: PinKind,
+    /// requests sent with the target info before the last one: (INVITE?, first send fails?)
+    pub history: Vec<(bool, bool)>,
+    /// the last request is an INVITE
+    pub last_invite: bool,
+    pub sips: bool,
+    pub v6: bool,
+    pub rng: u8,
+}
+
+pub fn hist_cases(tier: Tier) -> Vec<HistCase> {
+    let dsets: &[u8] = match tier {
+        Tier::Quick => &[0b0000, 0b0101, 0b1111],
+        Tier::Thorough => &[0b0000, 0b0101, 0b1111, 0b0011, 0b1100, 0b1010],
+    };
+    let fsets: &[FacOrder] = match tier {
+        Tier::Quick => &[FacOrder::None, FacOrder::TcpTls],
+        Tier::Thorough => &[FacOrder::None, FacOrder::TcpTls, FacOrder::TlsTcp, FacOrder::Tcp, FacOrder::Tls],
+    };
+    let kinds = [
+        PinKind::Ext(0),
+        PinKind::Ext(1),
+        PinKind::Ext(2),
+        PinKind::Ext(3),
+        PinKind::OwnConn(false),
+        PinKind::OwnConn(true),
+        PinKind::Populated,
+    ];
+    let histories: [&[(bool, bool)]; 7] = [
+        &[],
+        &[(false, true)],
+        &[(true, true)],
+        &[(false, false), (false, true)],
+        &[(false, true), (true, true)],
+        &[(true, false)],
+        &[(false, true), (false, false)],
+    ];
+    let mut v = vec![];
+    for &dgrams in dsets {
+        for &facs in fsets {
+            for kind in kinds {
+                for history in histories {
+                    for last_invite in [false, true] {
+                        for sips in [false, true] {
+                            for v6 in [false, true] {
+                                let rng = (v.len() % 5) as u8;
+                                v.push(HistCase {
+                                    dgrams,
+                                    facs,
+                                    kind,
+                                    history: history.to_vec(),
+                                    last_invite,
+                                    sips,
+                                    v6,
+                                    rng,
+                                });
+                            }
+                        }
+                    }
+                }
+            }
+        }
+    }
+    v
+}
+
+pub fn check_hist(case: &HistCase, out: &mut CaseOut) {
+    let target = rs::Target {
+        sips: case.sips,
+        ip: host_ip(case.v6, 0),
+        port: None,
+    };
+    let dest = rs::destination(&target);
+    let mut requests: Vec<(bool, bool)> = vec![];
+    if case.kind == PinKind::Populated {
+        requests.push((false, false));
+    }
+    requests.extend(case.history.iter().copied());
+    requests.push((case.last_invite, false));
+    let steps = requests
+        .iter()
+        .enumerate()
+        .map(|(i, (invite, fault))| Step {
+            ops: match (i, case.kind) {
+                (0, PinKind::OwnConn(secure)) => vec![Op::OpenOut { secure, remote: dest }],
+                _ => vec![],
+            },
+            fac_ok: [true, true],
+            target: target.clone(),
+            // the first request creates the target info (and the test keeps it), all others are sent with it
+            pin: match (i, case.kind) {
+                (0, PinKind::Ext(k)) => StepPin::External((k as usize).min(EXT.len() - 1)),
+                (0, PinKind::OwnConn(_)) => StepPin::OpConn(0),
+                (0, PinKind::Populated) => StepPin::None,
+                _ => StepPin::SlotSel(0),
+            },
+            hold: i == 0,
+            uri: UriForm::default(),
+            invite: *invite,
+            follow: vec![],
+            hdrs: Hdrs::default(),
+            fault: *fault,
+        })
+        .collect();
+    let sc = Scenario {
+        dgrams: case.dgrams & 0xf,
+        dgrams_rev: false,
+        facs: fac_list(case.facs),
+        steps,
+    };
+    out.class(match case.kind {
+        PinKind::Ext(k) if EXT_RELIABLE[(k as usize).min(EXT.len() - 1)] => "target-info:caller-pins-external-reliable-transport",
+        PinKind::Ext(_) => "target-info:caller-pins-external-datagram-transport",
+        PinKind::OwnConn(_) => "target-info:caller-pins-own-connection",
+        PinKind::Populated => "target-info:filled-in-by-a-first-request",
+    });
+    out.class(match case.history.iter().filter(|h| h.1).count() {
+        0 => "history:no-failed-send",
+        1 => "history:one-failed-send",
+        _ => "history:two-failed-sends",
+    });
+    run_and_judge(&sc, case.rng, case, out);
+}
+
 pub fn property() -> Property {
     Property {
         fuzz: vec![],
         id: "C14",
-        rule: "config: every combination of {UDP/v4, UDP/v6, secure datagram/v4, secure datagram/v6} subsets x insecure factory {absent, connects, refuses} x secure factory {absent, connects, refuses} (both registration orders when both are present) x pre-existing connection {none, insecure outbound to the destination, secure outbound to the destination, secure outbound to the same host other port, secure outbound to another host, secure inbound from the destination} (all held by a TpHandle) x {sip, sips} x {IPv4, IPv6 literal} x {no port, :5099} x target info {empty, pinned to a secure / an insecure transport outside the configuration with a foreign destination}; one OPTIONS request per configuration, each in its own paused-clock world. uri-text: the target URI is text read by ezk before it becomes the request target - reader {SipUri::from_str, Endpoint::parse_uri, request line / Contact name-addr / Contact addr-spec of a received request} x scheme spelling {lower, UPPER, Capitalised, mIxed} x {sip, sips} x user part {none, user, user:password} x host {IPv4, IPv6 lower case hex, IPv6 upper case hex (thorough: + IPv4-mapped)} x {no port, :5099} x parameters {none, ;lr, ;user=phone;ttl=5, ;method=OPTIONS, ?subject=hi as far as the reader's grammar allows them} x 8 endpoint configurations (datagram sets {UDP both families, all four, none, secure both families} x factories {both, none}; thorough 30); the reference sees only the generated (sips, ip, port) triple the text was rendered from. followup: one driven request per case - datagram subsets x factories {none, both} x pre-existing connection {none, insecure outbound to the destination, secure outbound to the destination, insecure inbound from the destination} x {sip, sips} x {IPv4, IPv6} x target info {empty, secure pin, insecure pin} x script {OPTIONS polled 1.6 s, INVITE polled 1.6 s, INVITE answered 486 over V, INVITE answered 486 on the carrying transport and again over V 700 ms later from the peer's port + 1 (thorough: + 180, then 404 over V from port + 1)} with V over {the carrying transport, each configured datagram transport, the two transports outside the configuration, the pre-existing connection}; observed: every later request with the transaction's Call-ID (retransmissions, ACK, repeated ACK), its carrier and destination. sequence: 2..6 requests with varying URIs (2 hosts per family, ports default/5060/5061/5099) against one endpoint; transaction + target info of each request held or dropped at random, held ones released later, 40 s pauses expire unreferenced connections, kept target infos are re-used as pins, factories refuse per step, inbound connections from the destination appear. Observed: which mock's send() carried the request to which destination, which factory was asked to connect. Non-trivial = (sips target and at least one insecure candidate configured) or eligible candidates on at least two of the paths datagram / existing connection / factory; each step also draws the URI form (40 % built, 60 % one of the five text readers with random spelling), the method (40 % INVITE) and, for 25 % of the steps, a follow-up script of 1..3 events (wait 300/600/1100/2100 ms; 180 / 200 / 302 / 404 / 486 / 603 delivered over the carrying transport, a configured or foreign datagram transport or any open connection, datagram responses from the destination's port or port + 1). Non-trivial additionally: a request with later transmissions whose target is sips, whose transport was pinned, or whose non-2xx final arrived over another transport than the request left on. Distinct by hash of the case.",
+        rule: "config: every combination of {UDP/v4, UDP/v6, secure datagram/v4, secure datagram/v6} subsets x insecure factory {absent, connects, refuses} x secure factory {absent, connects, refuses} (both registration orders when both are present) x pre-existing connection {none, insecure outbound to the destination, secure outbound to the destination, secure outbound to the same host other port, secure outbound to another host, secure inbound from the destination} (all held by a TpHandle) x {sip, sips} x {IPv4, IPv6 literal} x {no port, :5099} x target info {empty, pinned to a secure / an insecure transport outside the configuration with a foreign destination}; one OPTIONS request per configuration, each in its own paused-clock world. uri-text: the target URI is text read by ezk before it becomes the request target - reader {SipUri::from_str, Endpoint::parse_uri, request line / Contact name-addr / Contact addr-spec of a received request} x scheme spelling {lower, UPPER, Capitalised, mIxed} x {sip, sips} x user part {none, user, user:password} x host {IPv4, IPv6 lower case hex, IPv6 upper case hex (thorough: + IPv4-mapped)} x {no port, :5099} x parameters {none, ;lr, ;user=phone;ttl=5, ;method=OPTIONS, ?subject=hi as far as the reader's grammar allows them} x 8 endpoint configurations (datagram sets {UDP both families, all four, none, secure both families} x factories {both, none}; thorough 30); the reference sees only the generated (sips, ip, port) triple the text was rendered from. followup: one driven request per case - datagram subsets x factories {none, both} x pre-existing connection {none, insecure outbound to the destination, secure outbound to the destination, insecure inbound from the destination} x {sip, sips} x {IPv4, IPv6} x target info {empty, secure pin, insecure pin} x script {OPTIONS polled 1.6 s, INVITE polled 1.6 s, INVITE answered 486 over V, INVITE answered 486 on the carrying transport and again over V 700 ms later from the peer's port + 1 (thorough: + 180, then 404 over V from port + 1)} with V over {the carrying transport, each configured datagram transport, the two transports outside the configuration, the pre-existing connection}; observed: every later request with the transaction's Call-ID (retransmissions, ACK, repeated ACK), its carrier and destination. sequence: 2..6 requests with varying URIs (2 hosts per family, ports default/5060/5061/5099) against one endpoint; transaction + target info of each request held or dropped at random, held ones released later, 40 s pauses expire unreferenced connections, kept target infos are re-used as pins, factories refuse per step, inbound connections from the destination appear. Observed: which mock's send() carried the request to which destination, which factory was asked to connect. Non-trivial = (sips target and at least one insecure candidate configured) or eligible candidates on at least two of the paths datagram / existing connection / factory; each step also draws the URI form (40 % built, 60 % one of the five text readers with random spelling), the method (40 % INVITE) and, for 25 % of the steps, a follow-up script of 1..3 events (wait 300/600/1100/2100 ms; 180 / 200 / 302 / 404 / 486 / 603 delivered over the carrying transport, a configured or foreign datagram transport or any open connection, datagram responses from the destination's port or port + 1). Non-trivial additionally: a request with later transmissions whose target is sips, whose transport was pinned, or whose non-2xx final arrived over another transport than the request left on. route: one request per case - datagram sets {none, UDP both families, secure both families, all four} x factories {none, both, insecure only, secure only} (thorough: 8 x 5) x Request-URI {sip, sips} x {IPv4, IPv6} x header shape {decoy Contact / To only (3); one Route entry: {sip, sips} x {;lr, strict} x host {IPv4 proxy, IPv6 proxy, Request-URI host} x {no port, :5077}, with and without decoys (48); two entries, second {sip, sips};lr, as two headers / one comma list (96)} x target info {empty, secure pin (thorough: + insecure pin)}; every third case an INVITE. pin-history: datagram sets {none, UDP+secure datagram IPv4, all four} x factories {none, both} (thorough 6 x 5) x target info {caller pins one of four transports outside the configuration (two of them report reliable()), caller pins an insecure / secure connection it opened to the destination, empty and filled in by a first successful request} x history of requests sent with the same target info object before the last one {none; OPTIONS whose send fails; INVITE whose send fails; OPTIONS ok, OPTIONS fails; OPTIONS fails, INVITE fails; INVITE ok; OPTIONS fails, OPTIONS ok} x last request {OPTIONS, INVITE} x {sip, sips} x {IPv4, IPv6}. sequence steps additionally draw: header shape (62 % no extra header, 25 % a route set of 1..2 random entries + random decoys, 13 % decoys only), send fault for the first transmission (1 in 6), target info {empty; 1 in 5 the object kept from an earlier held request, used in place; 1 in 11 of the rest an own pin: external transport 0..3 or the connection the caller opened}, 1 in 13 an outbound connection the caller opens to the destination first. Non-trivial additionally: a route set + a sips URI (Request-URI or topmost entry) with an insecure candidate configured; a pinned request sent with a target info that has seen a failed send. Distinct by hash of the case.",
         assumptions: vec![
             "IP-literal targets only (no DNS: the resolver has no name servers); no transport= / maddr= URI parameter; mock streams stand in for TCP/TLS (no handshake)",
             "the URI scheme is case-insensitive (RFC 3261 19.1.1, RFC 3986 3.1): SIPS: / Sips: name a sips target; user part, password, IPv6 hex case and uri/header parameters other than transport/maddr do not influence destination or transport",
@@ -1978,12 +2625,16 @@ pub fn property() -> Property {
             "a connection is 'live' (reuse demanded) while the application holds a handle to it; an open but unreferenced connection may be reused or replaced; whether a connection is still open is read from the peer end (EOF), its 32 s lifetime is C15's subject",
             "sips target + target info pinned to an insecure transport: the statement's 'pinned is reused' and 'never in clear' collide; verbatim use and refusal are both accepted",
             "connect attempts towards a factory that is not eligible are not asserted as long as nothing is sent over the result",
+            "a request with a pre-loaded Route header: 'the target' may be read as the Request-URI (what the pinned tree does: Route headers do not influence selection) or as the topmost Route entry (RFC 3261 8.1.2 next hop; sips if the entry or the Request-URI is sips; port = the entry's port, else the default of the effective scheme, for a sip: entry behind a sips Request-URI also 5060); an observation clean under any reading is accepted, so a sips Request-URI is never allowed over an insecure transport and a sip Request-URI behind a sips entry may go in clear to the Request-URI only; Route entries are IP literals without transport= / maddr=; Contact / To URIs never influence the next hop",
+            "send faults are transient: the failing Transport::send call puts nothing on the wire and the transport (datagram mock, external mock reporting reliable(), mock connection) stays open and usable; a request whose send failed may fail; a target info belongs to the caller: what it pinned there (or what ezk stored for its first successful request) is what later requests sent with that object must use, whatever happened to requests in between",
         ],
-        explanation: "config (29952 configurations, both tiers), uri-text (23040 quick / 115200 thorough) and followup (20736 quick / 59136 thorough) are exhaustive over their stated products; sequence is sampled (thorough-weighted)",
+        explanation: "config (29952 configurations, both tiers), uri-text (23040 quick / 115200 thorough), followup (20736 quick / 59136 thorough), route (18816 quick / 70560 thorough) and pin-history (2352 quick / 11760 thorough) are exhaustive over their stated products; sequence is sampled (thorough-weighted)",
         subs: vec![
             enum_sub("config", config_cases, check_config),
             enum_sub("uri-text", text_cases, check_text),
             enum_sub("followup", follow_cases, check_follow),
+            enum_sub("route", hdr_cases, check_hdr),
+            enum_sub("pin-history", hist_cases, check_hist),
             prop_sub("sequence", seq_strategy, 5000, 60_000, check_seq),
         ],
     }
